@@ -1,2 +1,43 @@
-(* C02 — byte fidelity. (theorems added by Proofs/RoundTrip.v) *)
-From VF Require Import Model.Writer Proofs.CodecCorrect Gen.GeneratedOk.
+(* C02 — byte fidelity: parse-then-dump reproduces the bytes the parse consumed. *)
+From VF Require Import Model.Writer Proofs.CodecCorrect Proofs.SizeProps Proofs.RoundTrip Gen.GeneratedOk.
+Open Scope string_scope. Open Scope list_scope. Open Scope Z_scope.
+
+(* For every configuration with a proper byte order, every sequential type (`flat`: scalars, enums, pointers, arrays of all four length
+   forms, packed structures of plain fields, nested to any depth) whose encodings are unique (`fid_ty`: no wchar, no LEB128, null-terminated
+   arrays over integers/characters, distinct field names), every stream of bytes, every position and context, every fuel:
+   if the parse succeeds with value v at end position p then
+     - the bytes from pos to p exist (p - pos of them), and
+     - dumping v — at whatever output position — yields exactly those bytes.
+   So the dump has as many bytes as the parse consumed and equals the input on all of them (these types have no padding and no
+   unassigned bits, so nothing is exempt). *)
+Theorem parse_then_dump_is_identity : forall c, endian_ok (c_endian c) -> forall fuel t, flat t = true -> fid_ty c t = true ->
+  forall s pos ctx v p, Bytes s -> 0 <= pos -> read_ty c fuel t s pos ctx = Ok (v, p) ->
+    (pos <= p /\ zlen (sread s pos (p - pos)) = p - pos) /\ forall wpos, write_ty c t v wpos = Ok (sread s pos (p - pos)).
+Proof. intros c He fuel t Hfl Hfi s pos ctx v p. exact (dump_parse_identity c He fuel t Hfl Hfi s pos ctx v p). Qed.
+(* at the public entry points: dumps(T(data)) is the consumed prefix of data *)
+Theorem dumps_of_parsed : forall c, endian_ok (c_endian c) -> forall t, flat t = true -> fid_ty c t = true ->
+  forall s v p, Bytes s -> read_top c t s 0 = Ok (v, p) -> dumps c t v = Ok (firstn (Z.to_nat p) s) /\ p <= zlen s.
+Proof. exact dumps_read_top. Qed.
+(* the scalar codecs underneath *)
+Theorem int_decode_then_encode : forall e signed bs, (e = LE \/ e = BE) -> Bytes bs ->
+  int_to_bytes e (length bs) signed (int_from_bytes e signed bs) = Ok bs.
+Proof. exact int_bytes_roundtrip. Qed.
+
+Print Assumptions parse_then_dump_is_identity.
+Print Assumptions dumps_of_parsed.
+
+(* non-vacuity: a length-prefixed record with a nested structure, a null-terminated string and a to-end-of-stream tail *)
+Definition ex_cfg := mkCfg "<" (PInt 8 false true) 8 [] [].
+Definition u8 := TPrim (PInt 1 false true) 1.
+Definition ex_ty := TStruct "m" [Fld "n" false u8 None None; Fld "d" false (TArr (TPrim (PInt 2 true true) 2) (LExpr ["n"] false)) None None;
+                                 Fld "s" false (TArr (TPrim PChar 1) LNull) None None;
+                                 Fld "in" false (TStruct "i" [Fld "x" false (TPrim (PInt 3 true false) 4) None None; Fld "f" false (TPrim (PFloat 4) 4) None None] false) None None;
+                                 Fld "z" false (TArr (TPrim (PInt 2 false false) 2) LNull) None None;
+                                 Fld "tail" false (TArr u8 (LExpr ["EOF"] true)) None None] false.
+Example ex_endian : endian_ok "<" /\ endian_ok ">".
+Proof. split; intros [n sg [|]|n| | |sg|]; vm_compute; auto. Qed.
+Example ex_class : flat ex_ty = true /\ fid_ty ex_cfg ex_ty = true.
+Proof. vm_compute. split; reflexivity. Qed.
+Example ex_run : let s := [2; 1; 0; 254; 255; 104; 105; 0; 1; 2; 3; 0; 0; 128; 63; 7; 0; 0; 0; 9; 8; 7] in
+  exists v, read_top ex_cfg ex_ty s 0 = Ok (v, 22) /\ dumps ex_cfg ex_ty v = Ok s.
+Proof. eexists. split; [vm_compute; reflexivity|]. vm_compute. reflexivity. Qed.
